@@ -35,6 +35,7 @@ func runC03(c *Ctx) {
 	c.Rule("C03.R5", "WIRE", "(?i) iff not match-case", 1)
 	c.Rule("C03.R6", "WIRE", "compiled text derives from the rule's pattern field", 1)
 	c.Rule("C03.R7", "PANIC", "pattern compiler: every index/slice proved in range", 1)
+	c.Rule("C03.R10", "PDT", "the pattern verdict is the verdict of the compiled expression", 2)
 	c.Rule("C03.R8", "LIN", "trailing '/*' rewrite removes exactly that suffix; no other rewrite", 2)
 
 	a := &anchors{c: c, rule: "C03.R1"}
@@ -442,6 +443,94 @@ func runC03(c *Ctx) {
 		}
 		c.Check(bad == "", "C03.R5", "preparePattern: (?i) prepended exactly when match-case is off", pp.Pos(), "regexp.Compile(ite(match-case, p, \"(?i)\"+p))", bad)
 		c.Check(bad6 == "", "C03.R6", "preparePattern: compiles the rule's own pattern field", pp.Pos(), "same field the shortcut is extracted from (C05.R3)", bad6)
+	}
+
+	// ---------- R10: the pattern verdict is the verdict of the compiled expression ----------
+	{
+		// the pattern check by role: the baseline function(s) that call preparePattern
+		var mps []*ssa.Function
+		for _, fn := range c.P.AllLibFuncs() {
+			if c.P.IsNewHelper(fn) || fn == pp {
+				continue
+			}
+			calls := false
+			eachInstrG(c.P, fn, func(_ *ssa.BasicBlock, in ssa.Instruction) {
+				if ci, ok := in.(ssa.CallInstruction); ok && ci.Common().StaticCallee() == pp {
+					calls = true
+				}
+			})
+			if calls {
+				mps = append(mps, fn)
+			}
+		}
+		if len(mps) == 0 {
+			c.Fail("C03.R10", "pattern check", pp.Pos(), "UNDECIDED: no function calls preparePattern")
+		}
+		for _, mp := range mps {
+			g := NewGate(c.P)
+			g.Inline = inlineOnly()
+			s := g.Eval(mp)
+			u := g.U
+			bad := ""
+			if len(s.Rets) == 0 || len(s.Rets[0].Vals) != 1 {
+				bad = "UNDECIDED: not a predicate"
+			} else {
+				H := u.ToBool(g.RetExpr(s, 0))
+				var any, p0 Ref = False, False
+				for _, at := range u.AtomsOf(H) {
+					if at.Op == "call" && (at.Aux == "(*regexp.Regexp).MatchString" || at.Aux == "(*regexp.Regexp).Match") && at.Args[0].Op == "field" && at.Args[0].Aux == "regex" {
+						any = u.bdd.Or(any, u.Atom(at))
+					}
+					if at.Op == "eq" {
+						for i := 0; i < 2; i++ {
+							if x := at.Args[i]; x.Op == "call" && x.Aux == calleeName(pp) && isIntConst(at.Args[1-i], 0) {
+								p0 = u.bdd.Or(p0, u.Atom(at))
+							}
+						}
+					}
+				}
+				if rest := u.bdd.And(H, u.bdd.Not(u.bdd.Or(any, p0))); rest != False {
+					bad = "the pattern check answers true without the compiled expression having matched (when " + clip(u.ShowBool(rest), 200) + "): such a shortcut accepts URLs outside the language of the pattern (letter case under $match-case, anchors, separators)"
+				}
+			}
+			c.Check(bad == "", "C03.R10", shortFn(mp)+": true only if the compiled expression matched or the pattern is 'match everything'", mp.Pos(), "result implies MatchString(f.regex, _) or preparePattern()==0", bad)
+		}
+		// preparePattern reports 'match everything' only for the expansion of a lone '*'
+		{
+			g := NewGate(c.P)
+			g.Inline = inlineOnly()
+			g.Pure[FuncName(ptr)] = true
+			s := g.Eval(pp)
+			u := g.U
+			bad := ""
+			n := 0
+			for _, r := range s.Rets {
+				if len(r.Vals) != 1 {
+					continue
+				}
+				for leaf, lc := range u.Leaves(r.Vals[0]) {
+					cond := u.bdd.And(lc, r.Cond)
+					if cond == False || !isIntConst(leaf, 0) {
+						continue
+					}
+					n++
+					ok := false
+					for _, at := range u.AtomsOf(cond) {
+						if at.Op == "eq" && u.bdd.Implies(cond, u.Atom(at)) {
+							for i := 0; i < 2; i++ {
+								if x := at.Args[i]; x.Op == "call" && x.Aux == calleeName(ptr) && isStr(at.Args[1-i], K["RegexAnyCharacter"]) {
+									ok = true
+								}
+							}
+						}
+					}
+					if !ok {
+						bad = "preparePattern reports 'matches everything' (0) on a path where the compiled text is not known to be " + fmt.Sprintf("%q", K["RegexAnyCharacter"]) + ": " + clip(u.ShowBool(cond), 160)
+					}
+				}
+			}
+			c.Check(bad == "", "C03.R10", "preparePattern: 0 only when the expression is RegexAnyCharacter", pp.Pos(), fmt.Sprintf("%d return case(s) with value 0", n), bad)
+		}
 	}
 
 	// ---------- R7 ----------
